@@ -36,6 +36,8 @@ def run(ctx):
             n = 10 ** k + d
             if n > 1101 and (k < 6 or thorough or d == 0):
                 fills.append((rng.choice([0, 0x61, 0xff]), n))
+    # (the harness issues the calls of one batch in a pseudo-random order inside persistent processes, so small messages
+    # are also hashed AFTER very large ones in the same process/thread)
     calls = [("message.digest", m) for m in msgs] + [("message.digest", bytes([b]) * n) for b, n in fills]
     impl = ctx.harness(calls, timeout=300)
     mod = ctx.model(["c10_digest %s" % pb(m) for m in msgs] + ["c10_digest_fill %s %s" % (ni(b), ni(n)) for b, n in fills], label="C10", timeout=1500)
@@ -61,7 +63,9 @@ def run(ctx):
 
     # CLI: hash message FILE / stdin
     tmp = tempfile.mkdtemp(prefix="c10-", dir=CACHE)
-    sample = [b"", b"hello world!", bytes(range(256)), rbytes(rng, 999), rbytes(rng, 1000), b"\xff\xfe\x00", rbytes(rng, 100000)]
+    sample = [b"", b"hello world!", bytes(range(256)), rbytes(rng, 999), rbytes(rng, 1000), b"\xff\xfe\x00", rbytes(rng, 100000),
+              b"\xef\xbb\xbf", b"\xef\xbb\xbfhello", b"\xef\xbb\xbf" + rbytes(rng, 40), b"\xfe\xffab", b"\xff\xfea\x00", b"0x1234", b"\n", b"hello\n", b"\r\n",
+              b" x ", b"\x00", b"-", b"\x1a", b"\x04tail"]
     runs = []
     for i, m in enumerate(sample):
         p = os.path.join(tmp, "m%d" % i)
@@ -78,7 +82,7 @@ def run(ctx):
     # `sign message` signs exactly that digest (file and stdin; non-UTF-8 content in particular)
     phrase = "test test test test test test test test test test test junk"
     key = pyref.bip32_derive(pyref.bip39_seed(phrase, ""), [0x8000002C, 0x8000003C, 0x80000000, 0, 0])
-    smsgs = [b"", b"hello world!", b"\xff", b"\x80abc", b"\xc3", b"\xed\xa0\x80", bytes(range(256)), rbytes(rng, 32), rbytes(rng, 1000), "é€𝔘".encode(), b"\x00\x00"]
+    smsgs = [b"\xef\xbb\xbfBOM first", b"trailing newline\n", b"", b"hello world!", b"\xff", b"\x80abc", b"\xc3", b"\xed\xa0\x80", bytes(range(256)), rbytes(rng, 32), rbytes(rng, 1000), "é€𝔘".encode(), b"\x00\x00"]
     runs = []
     for i, m in enumerate(smsgs):
         p = os.path.join(tmp, "s%d" % i)
